@@ -295,9 +295,14 @@ class RowEval:
         self.bind = bind or {}
         op = e['op']
         self.kind = op
+        self.extra_conds = []
         if op == 'cas':
             self.pre_sym = e['expected']
             self.post_expr = e['desired']
+            if not (isinstance(self.pre_sym, tuple) and self.pre_sym and self.pre_sym[0] == 's'):
+                # CAS from a computed expected value: the certified word equals that expression
+                self.pre_sym = S('cas_expected@%s' % e['line'])
+                self.extra_conds = [(('op', '==', self.pre_sym, e['expected'], 1), True)]
         elif op == 'store':
             self.pre_sym = S('pre@%s' % e['line'])
             self.post_expr = e['value']
@@ -315,7 +320,7 @@ class RowEval:
         """yield (pre, post, env, undecided) over all feasible cells"""
         ws = word_symbols(self.path)
         ws.add(self.pre_sym)
-        conds = [(subst(c, self.bind), o) for c, o, _ in self.path.conds]
+        conds = [(subst(c, self.bind), o) for c, o, _ in self.path.conds] + [(subst(c, self.bind), o) for c, o in self.extra_conds]
         post_expr = subst(self.post_expr, self.bind)
         # free 64-bit symbols in the written value are enumerated as well (they can be anything)
         for s in free_word_symbols(post_expr):
